@@ -25,6 +25,7 @@ pub enum Call {
 #[derive(Clone, Copy, Debug, PartialEq, Eq)]
 pub enum Delay {
     None,
+    QuarterT,
     HalfT,
     TMinusHalfMs,
     T,
@@ -34,6 +35,7 @@ impl Delay {
     fn ns(&self) -> u64 {
         match self {
             Delay::None => 0,
+            Delay::QuarterT => T_NS / 4,
             Delay::HalfT => T_NS / 2,
             Delay::TMinusHalfMs => T_NS - 500_000,
             Delay::T => T_NS,
@@ -49,6 +51,11 @@ pub struct QScenario {
     pub unblocks: Vec<Delay>,
     /// consumers are started first and the system settles before anything is produced
     pub consumers_first: bool,
+    /// one more thread that, for every entry, sleeps for the delay, pushes an element
+    /// (false) or issues an unblock (true) and at once calls try_pop itself: the
+    /// notification it has just sent finds the queue empty again (a receiver is woken for
+    /// nothing, possibly several times during one call)
+    pub churn: Vec<(Delay, bool)>,
 }
 
 impl QScenario {
@@ -58,6 +65,7 @@ impl QScenario {
             "producers": self.producers.iter().map(|(d, n)| json!([format!("{:?}", d), n])).collect::<Vec<_>>(),
             "unblocks": self.unblocks.iter().map(|d| format!("{:?}", d)).collect::<Vec<_>>(),
             "consumers_first": self.consumers_first,
+            "churn": self.churn.iter().map(|(d, u)| json!([format!("{:?}", d), u])).collect::<Vec<_>>(),
             "T_ms": T_MS,
         })
     }
@@ -69,6 +77,7 @@ impl QScenario {
         };
         let delay = |s: &str| match s {
             "None" => Delay::None,
+            "QuarterT" => Delay::QuarterT,
             "HalfT" => Delay::HalfT,
             "TMinusHalfMs" => Delay::TMinusHalfMs,
             _ => Delay::T,
@@ -78,6 +87,7 @@ impl QScenario {
             producers: v["producers"].as_array().map(|a| a.iter().map(|p| (delay(p[0].as_str().unwrap_or("")), p[1].as_u64().unwrap_or(1) as usize)).collect()).unwrap_or_default(),
             unblocks: v["unblocks"].as_array().map(|a| a.iter().map(|d| delay(d.as_str().unwrap_or(""))).collect()).unwrap_or_default(),
             consumers_first: v["consumers_first"].as_bool().unwrap_or(false),
+            churn: v["churn"].as_array().map(|a| a.iter().map(|p| (delay(p[0].as_str().unwrap_or("")), p[1].as_bool().unwrap_or(false))).collect()).unwrap_or_default(),
         }
     }
 }
@@ -173,6 +183,39 @@ pub fn body(sc: QScenario, obs: Arc<Mutex<QObs>>) {
             q.unblock();
         }));
     }
+    if !sc.churn.is_empty() {
+        let ids: Vec<u32> = (0..sc.churn.len() as u32).map(|i| 900 + i).collect();
+        {
+            let mut o = obs.lock().unwrap();
+            for (i, (_, unb)) in sc.churn.iter().enumerate() {
+                if !*unb {
+                    o.pushed.push(ids[i]);
+                }
+            }
+        }
+        let (q, obs, churn, ci) = (q.clone(), obs.clone(), sc.churn.clone(), sc.consumers.len());
+        ps.push(thread::spawn_named(Some("churner".into()), move || {
+            for (k, (d, unb)) in churn.iter().enumerate() {
+                if *d != Delay::None {
+                    ctl::sleep(Duration::from_nanos(d.ns()));
+                }
+                if *unb {
+                    q.unblock();
+                } else {
+                    q.push(ids[k]);
+                }
+                let slot = {
+                    let mut o = obs.lock().unwrap();
+                    o.calls.push(CallObs { consumer: ci, idx: k, kind: "TryPop".into(), entered_ns: ctl::clock_ns(), returned: None });
+                    o.calls.len() - 1
+                };
+                let w0 = ctl::my_blocking_ops();
+                let r = q.try_pop();
+                let w1 = ctl::my_blocking_ops();
+                obs.lock().unwrap().calls[slot].returned = Some((r, ctl::clock_ns(), w1 - w0));
+            }
+        }));
+    }
     for p in ps {
         let _ = p.join();
     }
@@ -195,7 +238,7 @@ pub fn body(sc: QScenario, obs: Arc<Mutex<QObs>>) {
         o.returned2 = o.calls.iter().filter(|c| c.returned.is_some()).map(|c| (c.consumer, c.idx)).collect();
     }
     // release whoever is still (legitimately) blocked so that the execution ends
-    let total_calls: usize = sc.consumers.iter().map(|c| c.len()).sum();
+    let total_calls: usize = sc.consumers.iter().map(|c| c.len()).sum::<usize>() + sc.churn.len();
     for _ in 0..=total_calls {
         if blocked_calls(&obs.lock().unwrap()).is_empty() {
             break;
@@ -225,7 +268,7 @@ pub fn judge(sc: &QScenario, o: &QObs, res: &RunResult, which: &str) -> Vec<(Str
             return f;
         }
     };
-    let u = sc.unblocks.len();
+    let u = sc.unblocks.len() + sc.churn.iter().filter(|c| c.1).count();
     if which == "C07" {
         // no request stays queued while a receiver remains blocked
         if q1.0 > 0 && !o.blocked1.is_empty() {
@@ -260,7 +303,7 @@ pub fn judge(sc: &QScenario, o: &QObs, res: &RunResult, which: &str) -> Vec<(Str
         // one receiver sees the elements of one producer in order
         for ci in 0..sc.consumers.len() {
             let mine: Vec<u32> = o.calls.iter().filter(|c| c.consumer == ci).filter_map(|c| c.returned.and_then(|r| r.0)).collect();
-            for p in 1..=sc.producers.len() as u32 {
+            for p in (1..=sc.producers.len() as u32).chain(std::iter::once(9)) {
                 let of_p: Vec<u32> = mine.iter().copied().filter(|x| x / 100 == p).collect();
                 let mut s = of_p.clone();
                 s.sort();
@@ -324,7 +367,7 @@ pub fn judge(sc: &QScenario, o: &QObs, res: &RunResult, which: &str) -> Vec<(Str
             }
             // n calls release n receivers: with enough blocked recv callers and no elements
             let only_pops = sc.consumers.iter().all(|c| c.len() == 1 && c[0] == Call::Pop);
-            if only_pops && sc.producers.is_empty() && sc.consumers.len() >= u && pops_none_before != u {
+            if only_pops && sc.producers.is_empty() && sc.churn.is_empty() && sc.consumers.len() >= u && pops_none_before != u {
                 f.push((
                     "wrong-number-released".into(),
                     format!("{} unblock calls released {} of {} blocked receivers", u, pops_none_before, sc.consumers.len()),
@@ -397,6 +440,54 @@ pub fn programs(max_calls: usize) -> Vec<Vec<Call>> {
     v
 }
 
+
+/// receivers woken for nothing: a churner pushes (or unblocks) and takes the element back
+/// itself, one to three times during one call of the receivers
+fn churn_scenarios(which: &str, tier: Tier) -> Vec<QScenario> {
+    let mut v = Vec::new();
+    let receivers: Vec<Vec<Vec<Call>>> = vec![
+        vec![vec![Call::PopTimeout]],
+        vec![vec![Call::Pop]],
+        vec![vec![Call::PopTimeout, Call::PopTimeout]],
+        vec![vec![Call::PopTimeout], vec![Call::Pop]],
+        vec![vec![Call::PopTimeout], vec![Call::PopTimeout]],
+    ];
+    let q = Delay::QuarterT;
+    let mut churns: Vec<Vec<(Delay, bool)>> = vec![
+        vec![(q, false)],
+        vec![(q, false), (q, false)],
+        vec![(Delay::HalfT, false), (q, false)],
+        vec![(q, false), (Delay::HalfT, false)],
+        vec![(q, false), (q, false), (q, false)],
+        vec![(q, true), (q, true)],
+        vec![(q, false), (q, true)],
+        vec![(q, true), (q, false)],
+        vec![(Delay::None, false), (Delay::TMinusHalfMs, false)],
+    ];
+    if tier == Tier::Thorough {
+        churns.push(vec![(q, false), (q, false), (q, false), (q, false)]);
+        churns.push(vec![(Delay::HalfT, false), (Delay::HalfT, false), (Delay::HalfT, false)]);
+        churns.push(vec![(q, true), (q, true), (q, true)]);
+    }
+    for r in &receivers {
+        for c in &churns {
+            for late in [None, Some(Delay::T)] {
+                if which == "C17" && late.is_some() && tier == Tier::Quick && c.len() != 2 {
+                    continue;
+                }
+                v.push(QScenario {
+                    consumers: r.clone(),
+                    producers: late.map(|d| vec![(d, 1)]).unwrap_or_default(),
+                    unblocks: vec![],
+                    consumers_first: true,
+                    churn: c.clone(),
+                });
+            }
+        }
+    }
+    v
+}
+
 pub fn scenarios_c07(tier: Tier) -> Vec<QScenario> {
     let mut v = Vec::new();
     let progs = programs(if tier == Tier::Thorough { 2 } else { 1 });
@@ -437,11 +528,13 @@ pub fn scenarios_c07(tier: Tier) -> Vec<QScenario> {
                         producers: ps.clone(),
                         unblocks: vec![Delay::HalfT; u],
                         consumers_first: first,
+                        churn: vec![],
                     });
                 }
             }
         }
     }
+    v.extend(churn_scenarios("C07", tier));
     v
 }
 
@@ -458,6 +551,7 @@ pub fn scenarios_c17(tier: Tier) -> Vec<QScenario> {
                         producers: vec![],
                         unblocks: vec![d; u],
                         consumers_first: first,
+                        churn: vec![],
                     });
                 }
             }
@@ -481,6 +575,7 @@ pub fn scenarios_c17(tier: Tier) -> Vec<QScenario> {
                     producers: if items == 0 { vec![] } else { vec![(Delay::None, 1)] },
                     unblocks: vec![Delay::None; u],
                     consumers_first: false,
+                    churn: vec![],
                 });
             }
         }
@@ -510,12 +605,14 @@ pub fn scenarios_c17(tier: Tier) -> Vec<QScenario> {
                             producers: if items == 0 { vec![] } else { vec![(Delay::HalfT, 1)] },
                             unblocks: vec![d; u],
                             consumers_first: first,
+                        churn: vec![],
                         });
                     }
                 }
             }
         }
     }
+    v.extend(churn_scenarios("C17", tier));
     v
 }
 
@@ -523,7 +620,7 @@ pub fn scenarios_c17(tier: Tier) -> Vec<QScenario> {
 /// exponential in the number of blocking points, so they are used for up to 3 threads
 /// sharing the queue; larger scenarios charge every departure from the default schedule.
 pub fn bound_for(sc: &QScenario, tier: Tier) -> (Mode, u32) {
-    let threads = sc.consumers.len() + sc.producers.len() + sc.unblocks.len();
+    let threads = sc.consumers.len() + sc.producers.len() + sc.unblocks.len() + if sc.churn.is_empty() { 0 } else { 1 };
     match tier {
         Tier::Quick => {
             if threads <= 3 {
@@ -598,7 +695,7 @@ pub fn rule_text(which: &str, tier: Tier, n: usize) -> String {
         "1..3 blocked recv callers x 1..3 unblock calls (exactly min(u,c) must be released); every multiset of 1..2 receiver programs over {pop, pop_timeout(T), try_pop} x 0..1 queued element x 1..2 unblock calls issued at {0, T/2, T-0.5ms, T} x receivers blocked first or racing"
     };
     format!(
-        "real MessagesQueue<u32>, T = {} ms virtual; {}; {} scenarios, each explored for ALL schedules with at most {} deviations (a preemption, an early timeout or an unusual notify_one wake-up costs 1; choosing among the runnable threads when the running one blocks is free for <= 3 threads [chess] and costs 1 otherwise [strict]), bounds iterated from 0; every execution judged at quiescence (conservation, exactly-once, per-producer order, no element or unblock token queued while a receiver is blocked, token accounting, try_pop enters no wait, virtual-time bounds); non-trivial = every scenario has >= 2 threads sharing the queue",
+        "real MessagesQueue<u32>, T = {} ms virtual; {}; plus churn scenarios (a thread that pushes or unblocks and at once takes the element back with try_pop, 1..3 times (thorough: 4) at T/4..T/2 intervals, so that blocked receivers {{recv_timeout, recv, two calls, pairs}} are woken for nothing several times during one call); {} scenarios, each explored for ALL schedules with at most {} deviations (a preemption, an early timeout or an unusual notify_one wake-up costs 1; choosing among the runnable threads when the running one blocks is free for <= 3 threads [chess] and costs 1 otherwise [strict]), bounds iterated from 0; every execution judged at quiescence (conservation, exactly-once, per-producer order, no element or unblock token queued while a receiver is blocked, token accounting, try_pop enters no wait, virtual-time bounds); non-trivial = every scenario has >= 2 threads sharing the queue",
         T_MS, fam, n, if tier == Tier::Thorough { "4 chess / 3 chess / 3 strict (for <= 2 / 3 / more threads sharing the queue)" } else { "2 chess / 2 strict (for <= 3 / more threads sharing the queue)" }
     )
 }
